@@ -9,7 +9,9 @@
 EXTENDS Naturals, Sequences, FiniteSets, TLC, Json
 Validity == {"valid", "warnings", "missing-type", "dup-ids", "dup-names"}
 ErrorsV == {"missing-type", "dup-ids", "dup-names"}
-Faults == {"none", "text-xml-cannot-hold", "attribute-json-cannot-encode"}
+Faults == {"none", "text-xml-cannot-hold", "attribute-json-cannot-encode", "text-file-cannot-encode"}
+\* text-file-cannot-encode: a lone surrogate (as os.fsdecode produces for undecodable file names):
+\* a str the UTF-8 file encoding cannot hold; whether a format escapes or refuses it is unspecified
 Formats == {"XML", "JSON", "YAML", "RDF:xml", "RDF:turtle", "RDF:nt", "RDF:n3", "RDF:json-ld", "RDF:bogus"}
 FileStates == {"absent", "old"}
 Entries == {"odml.save", "ODMLWriter.write_file", "XMLWriter.write_file", "RDFWriter.write_file"}
@@ -43,9 +45,9 @@ RefOutcome(c) == IF c.entry \in Validating /\ c.validity \in ErrorsV THEN "Parse
 (***************************************************************************)
 RefusesInvalid(o) == (o.c.entry \in Validating /\ o.c.validity \in ErrorsV) => (o.out = "raised" /\ o.exc = "ParserException")
 FailedSaveHarmless(o) == o.out = "raised" => o.after = o.before
-WarningsOnlyIsSaved(o) == (o.c.validity = "warnings" /\ ~SerialisationFails(o.c) /\ o.c.entry \in Validating /\ o.c.wmode = "default") => (o.out = "saved" /\ o.warned)
+WarningsOnlyIsSaved(o) == (o.c.validity = "warnings" /\ ~SerialisationFails(o.c) /\ o.c.fault # "text-file-cannot-encode" /\ o.c.entry \in Validating /\ o.c.wmode = "default") => (o.out = "saved" /\ o.warned)
 \* (whether a document carrying a planted fault, or an invalid one written by a lower-level writer,
 \* loads again is not part of C07)
 SavedIsLoadable(o) == o.out = "saved" => (o.after = "new" /\ ((o.c.fault = "none" /\ o.c.validity \notin ErrorsV) => o.loads))
-Conforms(o) == (RefOutcome(o.c) = "saved") <=> (o.out = "saved")
+Conforms(o) == o.c.fault = "text-file-cannot-encode" \/ ((RefOutcome(o.c) = "saved") <=> (o.out = "saved"))
 ====
